@@ -220,6 +220,22 @@ def CRes.bind (r : CRes) (f : Ast → Val → CRes) : CRes :=
 
 def CRes.map (r : CRes) (f : Ast → Ast) : CRes := (r.1.map fun x => (f x.1, x.2), r.2)
 
+/-- result of resolving the imports of a parsed expression -/
+abbrev RRes := Option Ast × List Eff
+
+def RRes.bind (r : RRes) (f : Ast → RRes) : RRes :=
+  match r with
+  | (none, l) => (none, l)
+  | (some v, l) => let r' := f v; (r'.1, l ++ r'.2)
+
+def RRes.map (r : RRes) (f : Ast → Ast) : RRes := (r.1.map f, r.2)
+
+/-- resolve a parsed sub-expression inside the parse (the `bind` hook, unpackMacro) -/
+def RRes.bindC (r : RRes) (f : Ast → CRes) : CRes :=
+  match r with
+  | (none, l) => (none, l)
+  | (some v, l) => let r' := f v; (r'.1, l ++ r'.2)
+
 /-- run a value computation inside a compilation -/
 def Res.bindC (r : Res) (f : Val → CRes) : CRes :=
   match r with
